@@ -135,6 +135,7 @@ type brkCfg struct {
 	minReq                        int64
 	trial, open, window, interval int64
 	k                             int
+	scale                         int64 // durations were multiplied by this (0/1: nanosecond-sized)
 }
 
 func genBrkCfg() brkCfg {
@@ -148,27 +149,61 @@ func genBrkCfg() brkCfg {
 	}
 	c.open = []int64{1, 5, 10, 100, 1000}[rng.Intn(5)]
 	c.trial = []int64{1, 3, 10, 100}[rng.Intn(4)]
+	if rng.Intn(4) == 0 {
+		// thresholds just below / above an attainable ratio f/t of small counts (7 decimals, one ulp): a rate compared at a coarser
+		// resolution than float64 decides differently exactly there
+		t := int64(1 + rng.Intn(12))
+		f := int64(rng.Intn(int(t) + 1))
+		r := float64(f) / float64(t)
+		c.thr = []float64{math.Floor(r*1e7) / 1e7, math.Nextafter(r, 0), math.Nextafter(r, 2), math.Ceil(r*1e7) / 1e7, math.Floor(r*1e4) / 1e4}[rng.Intn(5)]
+		if !(c.thr > 0 && c.thr <= 1) {
+			c.thr = 0.5
+		}
+		stats["cfg.fine-threshold"]++
+	}
+	if rng.Intn(3) == 0 {
+		// realistic magnitudes: the same configuration in microseconds, milliseconds, seconds, minutes, hours (values are nanoseconds)
+		scale := []int64{1000, 1000000, 1000000000, 60000000000, 3600000000000}[rng.Intn(5)]
+		c.interval *= scale
+		c.window *= scale
+		c.open *= scale
+		c.trial *= scale
+		c.scale = scale
+		stats["cfg.scaled-durations"]++
+	}
 	if rng.Intn(8) == 0 {
 		// "all window sizes": windows up to the largest Duration (nothing ever expires); with ticks far from the int64 limits no
 		// sum or difference of the counter wraps (t - window >= -MaxInt64)
-		c.window = []int64{1 << 62, math.MaxInt64, math.MaxInt64 - int64(rng.Intn(1000)), 1<<61 + 12345, 1 << 45}[rng.Intn(5)]
+		c.window = []int64{1 << 62, math.MaxInt64, math.MaxInt64 - int64(rng.Intn(1000)), 1<<61 + 12345}[rng.Intn(4)]
 		stats["cfg.huge-window"]++
 	}
 	return c
 }
 
+// unscale: the wrap streams (known finding F7, keyed to ticks within ~10^5 of the int64 limits) keep nanosecond-sized configurations
+func (c *brkCfg) unscale() {
+	if c.scale > 1 {
+		c.interval /= c.scale
+		c.window /= c.scale
+		c.open /= c.scale
+		c.trial /= c.scale
+		c.scale = 1
+	}
+}
+
 // hugeWindow: the tick scripts of such configurations stay near 10^12 (far from zero and from the limits)
-func (c brkCfg) hugeWindow() bool { return c.window >= 1<<45 }
+func (c brkCfg) hugeWindow() bool { return c.window >= 1<<61 }
 
 // tick script: mostly advancing, sometimes standing still, stepping back or jumping several windows
 func genTicks(n int, c brkCfg, start int64) []int64 {
 	ts := make([]int64, n)
 	t := start
 	mode := rng.Intn(4)
-	if c.hugeWindow() {
+	huge := c.hugeWindow()
+	if huge {
 		c.window = 1000 * c.interval // jump sizes only; the configuration keeps its window
-		if t < 1000000000000 && t > -1000000000000 {
-			t = 1000000000000
+		if t < 1000000000000 {
+			t = 1000000000000 // ticks of such configurations stay non-negative: t - window never wraps there
 		}
 	}
 	for i := range ts {
@@ -201,6 +236,9 @@ func genTicks(n int, c brkCfg, start int64) []int64 {
 		}
 		if (d > 0 && t > math.MaxInt64-d) || (d < 0 && t < math.MinInt64-d) {
 			d = 0 // the ticker itself never wraps
+		}
+		if huge && (t+d < 0 || t+d > math.MaxInt64/2) {
+			d = 0
 		}
 		t += d
 		ts[i] = t
@@ -400,6 +438,7 @@ func runBreaker(count int, args []string) {
 			if c.hugeWindow() {
 				c.window = 3 * c.interval // the wrap streams keep ordinary window sizes
 			}
+			c.unscale()
 			start = []int64{math.MaxInt64 - 3*c.window - int64(rng.Intn(50)), math.MaxInt64 - c.open - int64(rng.Intn(20)), math.MinInt64 + int64(rng.Intn(int(c.window))+1)}[rng.Intn(3)]
 		}
 		ticks := genTicks(2+3*nops, c, start)
@@ -611,6 +650,7 @@ func runWindow(count int, args []string) {
 			if c.hugeWindow() {
 				c.window = 3 * c.interval // the wrap stream keeps ordinary window sizes
 			}
+			c.unscale()
 			wstart = []int64{math.MaxInt64 - 3*c.window - int64(rng.Intn(50)), math.MinInt64 + int64(rng.Intn(int(c.window)+1)+1)}[rng.Intn(2)]
 		}
 		ticks := genTicks(1+nops, c, wstart)
